@@ -153,9 +153,15 @@ func c16Watchers() ([]mc.Violation, map[string]any) {
 }
 
 func csvLivenessSubcheck(prop, prefix string) ([]mc.Violation, map[string]any) {
+	// C07 promises the refund "whenever the CSV matures", restart or not; C16 only promises termination "when the node
+	// is restarted from time to time": there a watcher that stays silent counts only if a restart does not cure it
+	drain, want := "1", "csv_maturity_never_reported_after_services_recovered"
+	if prop == "C16" {
+		drain, want = "restart", "csv_maturity_never_reported_even_after_restart"
+	}
 	out := fmt.Sprintf("%s/%sw-%d.json", workDir, strings.ToLower(prop), os.Getpid())
 	cmd := exec.Command(os.Args[0], "-test.run", "^TestC20$", "-test.timeout", "0")
-	cmd.Env = append(os.Environ(), "VERIF_C20_ONLY=/csv", "VERIF_C20_SKIP=/early", "VERIF_C20_DRAIN=1", "VERIF_C20_EXPORT="+out)
+	cmd.Env = append(os.Environ(), "VERIF_C20_ONLY=/csv", "VERIF_C20_SKIP=/early", "VERIF_C20_DRAIN="+drain, "VERIF_C20_EXPORT="+out)
 	ob, err := cmd.CombinedOutput()
 	b, rerr := os.ReadFile(out)
 	cov := map[string]any{}
@@ -175,7 +181,7 @@ func csvLivenessSubcheck(prop, prefix string) ([]mc.Violation, map[string]any) {
 	_ = json.Unmarshal(b, &rep)
 	var vs []mc.Violation
 	for _, v := range rep.Violations {
-		if strings.Contains(v.Key, "csv_maturity_never_reported") {
+		if strings.Contains(v.Key, want) {
 			vs = append(vs, mc.Violation{Property: prop, Key: prefix + v.Key, Detail: v.Detail, History: v.History, Scenario: "watcher:" + v.Scenario})
 		}
 	}
@@ -186,7 +192,7 @@ func csvLivenessSubcheck(prop, prefix string) ([]mc.Violation, map[string]any) {
 	for _, f := range rep.Families {
 		fams = append(fams, fmt.Sprintf("%v(states=%v,depth=%v)", f["family"], f["states"], f["completed_depth"]))
 	}
-	cov["watcher_subcheck"] = map[string]any{"rule": "CSV-registration families of the real-watcher exploration (rpc btc, electrum lbtc, lnd btc; reorgs, stale answers, RPC faults, mid-call chain changes) + fair continuation after every history: services healthy, chain grows past maturity => maturity must be reported", "states": rep.States, "executions": rep.Executions, "exhaustive": rep.Exhaustive, "families": fams}
+	cov["watcher_subcheck"] = map[string]any{"rule": "CSV-registration families of the real-watcher exploration (rpc btc, electrum lbtc, lnd btc; reorgs, stale answers, RPC faults, mid-call chain changes) + fair continuation after every history: services healthy, chain grows past maturity => maturity must be reported" + map[bool]string{true: " (C16: counted only if a restart of the daemon - new watcher object, watch registered again, 3 more blocks - does not bring the report either)", false: ""}[prop == "C16"], "states": rep.States, "executions": rep.Executions, "exhaustive": rep.Exhaustive, "families": fams}
 	return vs, cov
 }
 
